@@ -41,6 +41,7 @@ func load(dir string) *pkgInfo {
 		if err != nil {
 			fatal(err)
 		}
+		desugarFile(f) // code_desugar.go: syntactic normalisation (local constants, element pointers, counting loops)
 		p.files[n] = f
 	}
 	// package level constants (several passes for dependencies)
